@@ -19,7 +19,12 @@ def run_seed(sid):
         if r.returncode:
             return sid, meta["property"], None, "patch does not apply: " + r.stderr[-200:]
         results = {}
-        for p in PROPS:
+        props = PROPS
+        if os.environ.get("SEED_MODE") == "focus" and meta.get("checks"):
+            # re-run the check of the seed's own property and every check that reported or could not decide last time; keep the other records
+            results = dict(meta["checks"])
+            props = sorted({meta["property"]} | {p for p, x in meta["checks"].items() if x["exit"] != 0})
+        for p in props:
             r = subprocess.run([os.path.join(VERIF, "check"), p, "--root", tmp, "--no-write", "--no-controls"], capture_output=True, text=True, cwd=VERIF, env=dict(os.environ, SV_TIME_LIMIT=os.environ.get("SV_TIME_LIMIT", "600")))
             out = r.stdout
             lines = [l for l in out.splitlines() if "VIOLATION" in l or "ANALYSIS-ERROR" in l or " — " in l]
